@@ -190,6 +190,36 @@ fn harness_bits(tls_case: bool, only: Option<ValueFlags>) {
     assert!(left.4 == 0, "excessive .rela.dyn (relative) allocation");
     assert!(left.5 == 0, "excessive .relr.dyn allocation");
 
+    // ---- (d) [C01/C09] what the program finds in the symbol's GOT slot at run time.  `G` in the
+    // psABI formulas is the address of a slot that holds the symbol's run-time address: for a
+    // symbol imported/exported dynamically the loader fills it (GLOB_DAT naming the symbol); for
+    // a link-time address in a position-independent output exactly one relative relocation makes
+    // it address + load base; otherwise the linker stores the final value.
+    if !tls_case && flags.needs_got() && !flags.is_ifunc() {
+        let slot_addr = got_base; // create_resolution hands out the cursor position
+        assert!(res.got_address().is_ok_and(|a| a == slot_addr), "GOT slot address differs from the GOT cursor");
+        let slot = got_arr[0];
+        let base: u64 = kani::any();
+        if has_dynamic_symbol {
+            let (off, info, addend) = rela_tuple(&general_arr[0]);
+            assert!(n_general >= 1 && off == slot_addr, "GLOB_DAT is not attached to the symbol's GOT slot");
+            assert!((info & 0xffff_ffff) as u32 == object::elf::R_X86_64_GLOB_DAT && (info >> 32) as u32 == dynsym && addend == 0, "GOT slot of a dynamic symbol is not filled by GLOB_DAT of that symbol");
+            assert!(slot == 0);
+        } else if flags.is_address() && kind.is_relocatable() {
+            if relr && n_relr > 0 {
+                let entry = relr_arr[0].0.get(LittleEndian);
+                assert!(entry == slot_addr && entry & 1 == 0, "RELR entry does not decode to the GOT slot");
+                assert!(slot.wrapping_add(base) == res.raw_value.wrapping_add(base), "GOT slot does not hold address + base after loading (RELR)");
+            } else {
+                let (off, info, addend) = rela_tuple(&relative_arr[0]);
+                assert!(n_relative >= 1 && off == slot_addr && info == object::elf::R_X86_64_RELATIVE as u64, "relative relocation is not attached to the GOT slot");
+                assert!(base.wrapping_add(addend as u64) == res.raw_value.wrapping_add(base), "GOT slot does not hold address + base after loading (RELA)");
+            }
+        } else {
+            assert!(slot == res.raw_value, "GOT slot does not hold the symbol's value");
+        }
+    }
+
     // ---- (c) TLS: the slot each dynamic relocation describes is the slot the accessors return
     if tls_case {
         let i: usize = kani::any();
